@@ -292,6 +292,7 @@ void h_release(void) {
   tbl_release_entry(&T, &epool[k]);
   XV_OBL("tbl.abandon.release", epool[k].state == ES_free && epool[k].next_entry == n0 && m_st_store_n == 1 && m_st_store_k == (int)k && XV_IS_RELEASE(m_st_store_o));
   XV_OBL("tbl.abandon.release", epool[o].state == os0 && epool[o].next_entry == on0 && T.head == h0 && m_head_cas_n == 0 && m_head_store_n == 0);
+  XV_OBL("tbl.release.dispatches_to_derived", XV_RELEASE_ENTRY_STATIC_TYPE_IS_T == 1);
   XV_CANARY("release.done");
 }
 
